@@ -127,14 +127,14 @@ func (b *budgeter) next() time.Time {
 func check(flags explore.Flags, out *os.File, only string, lenOverride, depthOverride int) int {
 	rep := explore.NewReporter("C09", "model_checking", flags, out)
 	budget := flags.Budget
-	L, orderL, depth, nRandom, randomLen, maxStates := 5, 7, 7, 320, 300, 400000
+	L, orderL, depth, nRandom, randomLen, maxStates := 5, 7, 8, 1500, 300, 400000
 	if flags.Tier == "thorough" {
-		L, orderL, depth, nRandom, randomLen, maxStates = 6, 8, 9, 4000, 400, 6000000
+		L, orderL, depth, nRandom, randomLen, maxStates = 6, 8, 12, 10000, 400, 6000000
 		if budget == 0 {
 			budget = 13 * time.Minute
 		}
 	} else if budget == 0 {
-		budget = 50 * time.Second
+		budget = 55 * time.Second
 	}
 	if lenOverride > 0 {
 		L = lenOverride
@@ -147,7 +147,7 @@ func check(flags explore.Flags, out *os.File, only string, lenOverride, depthOve
 			fmt.Fprintf(os.Stderr, format+"\n", a...)
 		}
 	}
-	bud := &budgeter{end: time.Now().Add(budget), weights: []int{45, 10, 10, 28, 7}}
+	bud := &budgeter{end: time.Now().Add(budget), weights: []int{35, 10, 25, 25, 5}}
 
 	var all []store.Found
 	capsHit := []string{}
@@ -236,9 +236,9 @@ func check(flags explore.Flags, out *os.File, only string, lenOverride, depthOve
 				"new_states_per_depth": s.PerDepth, "transitions_into_known_states": s.MergedInto, "executions": s.Executions,
 				"ops_executed": s.OpsExecuted, "read_transitions_checked_to_be_self_loops": s.ReadLoops,
 				"session_dropping_transitions_compared_with_session_free_path": s.DropChecks,
-				"state_differences_examined": s.Suspects, "state_differences_without_hash_effect": s.Unconfirmed,
+				"state_differences_examined":                                   s.Suspects, "state_differences_without_hash_effect": s.Unconfirmed,
 				"state_differences_without_hash_effect_examples": s.UnconfirmedEx,
-				"distinct_root_hashes": s.DistinctHashes, "stopped_by": s.StoppedBy, "sample_paths": s.Sample,
+				"distinct_root_hashes":                           s.DistinctHashes, "stopped_by": s.StoppedBy, "sample_paths": s.Sample,
 			})
 		}
 		rep.Set("search", searches)
@@ -331,10 +331,9 @@ func sampleTraces(a *store.Alphabet, cfg store.Config, L int) []interface{} {
 			x -= float64(d)
 			seq[i] = uint8(d)
 		}
-		for !a.Legal(seq) {
-			seq[L-1] = (seq[L-1] + 1) % uint8(n)
-			if seq[L-1] == 0 {
-				seq[0] = (seq[0] + 1) % uint8(n)
+		for i := range seq { // replace an illegal CommitTxSession by the next op of the alphabet
+			for !a.Legal(seq[:i+1]) {
+				seq[i] = (seq[i] + 1) % uint8(n)
 			}
 		}
 		r := store.NewRunner(a, cfg)
@@ -362,27 +361,31 @@ func cfgNames(cs []store.Config) []string {
 }
 
 func enumCoverage(a *store.Alphabet, e *store.Enumerator, L int) map[string]interface{} {
-	vac := map[string]int64{}
-	for i, n := range store.VacNames {
-		vac[n] = e.Stats.Vac[i]
+	vac := map[string]interface{}{}
+	for ci, v := range e.Stats.Vac {
+		m := map[string]int64{}
+		for i, n := range store.VacNames {
+			m[n] = v[i]
+		}
+		vac[e.Cfgs[ci].String()] = m
 	}
 	return map[string]interface{}{
-		"alphabet":                         a.Name,
-		"length_bound":                     L,
-		"completed_length":                 e.Stats.CompletedLength,
-		"complete":                         e.Stats.Complete,
-		"configs":                          len(e.Cfgs),
-		"executions":                       e.Stats.Executions,
-		"ops_executed":                     e.Stats.OpsExecuted,
-		"distinct_legal_sequences":         e.Stats.DistinctSeqs,
-		"legal_sequences_of_max_length":    e.Stats.MaxLenSeqs,
-		"reread_twins_executed":            e.Stats.RereadTwins,
-		"twin_comparisons_from_table":      e.Stats.MemoTwinChecks,
-		"prefix_hash_lists_recomputed":     e.Stats.PrefixRechecks,
-		"cross_config_hash_comparisons":    e.Stats.CrossCfgChecks,
-		"distinct_root_hashes":             len(e.Stats.Hashes),
-		"nontrivial_sequences":             e.Stats.Nontrivial,
-		"sequences_exercising (max length, first config)": vac,
+		"alphabet":                        a.Name,
+		"length_bound":                    L,
+		"completed_length":                e.Stats.CompletedLength,
+		"complete":                        e.Stats.Complete,
+		"configs":                         len(e.Cfgs),
+		"executions":                      e.Stats.Executions,
+		"ops_executed":                    e.Stats.OpsExecuted,
+		"distinct_legal_sequences":        e.Stats.DistinctSeqs,
+		"legal_sequences_of_max_length":   e.Stats.MaxLenSeqs,
+		"reread_twins_executed":           e.Stats.RereadTwins,
+		"twin_comparisons_from_table":     e.Stats.MemoTwinChecks,
+		"prefix_hash_lists_recomputed":    e.Stats.PrefixRechecks,
+		"cross_config_hash_comparisons":   e.Stats.CrossCfgChecks,
+		"distinct_root_hashes":            len(e.Stats.Hashes),
+		"nontrivial_sequences":            e.Stats.Nontrivial,
+		"max_length_sequences_exercising": vac,
 	}
 }
 
